@@ -69,7 +69,7 @@ fn hexbits(b: &[u8]) -> String {
 }
 
 impl BunWorld {
-    fn new(ts: u16) -> Result<BunWorld, String> {
+    fn new(ts: u16, with_metadata: bool) -> Result<BunWorld, String> {
         let pid = ::whirlpool::ID;
         let sysid = crate::svm::system_id();
         let mut bank = Bank::new(1_000_000);
@@ -116,20 +116,49 @@ impl BunWorld {
         let mint = k(0xE5, 1);
         let bundle = Pubkey::find_program_address(&[b"position_bundle", mint.as_ref()], &pid).0;
         let token = Pubkey::find_program_address(&[owner.as_ref(), anchor_spl::token::ID.as_ref(), mint.as_ref()], &anchor_spl::associated_token::ID).0;
-        let acc = ::whirlpool::accounts::InitializePositionBundle {
-            position_bundle: bundle,
-            position_bundle_mint: mint,
-            position_bundle_token_account: token,
-            position_bundle_owner: owner,
-            funder,
-            token_program: anchor_spl::token::ID,
-            system_program: sysid,
-            rent: rent_id,
-            associated_token_program: anchor_spl::associated_token::ID,
+        let meta_pid = anchor_spl::metadata::ID;
+        let metadata_pda = Pubkey::find_program_address(&[b"metadata", meta_pid.as_ref(), mint.as_ref()], &meta_pid).0;
+        let upd_auth = ::whirlpool::constants::nft::whirlpool_nft_update_auth::ID;
+        let (metas, data): (Vec<Meta>, Vec<u8>) = if with_metadata {
+            // initialize_position_bundle_with_metadata: the Metaplex program is the stand-in of svm.rs
+            bank.set_program(meta_pid);
+            bank.set(upd_auth, sysid, 1_000_000, vec![]);
+            let acc = ::whirlpool::accounts::InitializePositionBundleWithMetadata {
+                position_bundle: bundle,
+                position_bundle_mint: mint,
+                position_bundle_metadata: metadata_pda,
+                position_bundle_token_account: token,
+                position_bundle_owner: owner,
+                funder,
+                metadata_update_auth: upd_auth,
+                token_program: anchor_spl::token::ID,
+                system_program: sysid,
+                rent: rent_id,
+                associated_token_program: anchor_spl::associated_token::ID,
+                metadata_program: meta_pid,
+            };
+            (acc.to_account_metas(None).iter().map(Meta::from).collect(), ::whirlpool::instruction::InitializePositionBundleWithMetadata {}.data())
+        } else {
+            let acc = ::whirlpool::accounts::InitializePositionBundle {
+                position_bundle: bundle,
+                position_bundle_mint: mint,
+                position_bundle_token_account: token,
+                position_bundle_owner: owner,
+                funder,
+                token_program: anchor_spl::token::ID,
+                system_program: sysid,
+                rent: rent_id,
+                associated_token_program: anchor_spl::associated_token::ID,
+            };
+            (acc.to_account_metas(None).iter().map(Meta::from).collect(), ::whirlpool::instruction::InitializePositionBundle {}.data())
         };
-        let metas: Vec<Meta> = acc.to_account_metas(None).iter().map(Meta::from).collect();
-        let data = ::whirlpool::instruction::InitializePositionBundle {}.data();
         let (res, out) = bank.execute(&metas, &data);
+        if with_metadata && res.is_ok() {
+            let m = bank.get(&metadata_pda);
+            if m.owner != meta_pid || m.data.len() < 65 || m.data[1..33] != upd_auth.to_bytes() || m.data[33..65] != mint.to_bytes() {
+                return Err("C18/C15 the bundle's metadata account is missing, for another mint, or without the program's update authority".to_string());
+            }
+        }
         if let Err(e) = res {
             return Err(format!("{} / {}", crate::ix::err_name(&e, &out.logs), out.logs.join(" / ")));
         }
@@ -266,7 +295,7 @@ impl Family for XBundle {
             *left = 15 + r.below(50) as u32;
             let ts = r.pick(&[1u16, 8, 64, 64, 64, 128, 32896]);
             *self.gen_ts.borrow_mut() = ts;
-            return format!("B xnew {}", ts);
+            return format!("B {} {}", if r.chance(1, 3) { "xnewm" } else { "xnew" }, ts);
         }
         *left -= 1;
         let ts = *self.gen_ts.borrow() as i64;
@@ -321,9 +350,9 @@ impl XBundle {
     fn run_inner(&self, line: &str, ctx: &mut Ctx) -> String {
         let t = toks(line);
         let mut slot = self.w.borrow_mut();
-        if t[1] == "xnew" {
+        if t[1] == "xnew" || t[1] == "xnewm" {
             let ts: u16 = t[2].parse().unwrap();
-            return match BunWorld::new(ts) {
+            return match BunWorld::new(ts, t[1] == "xnewm") {
                 Ok(w) => {
                     // the bundle token: supply 1, no mint authority, one token with the owner
                     let m = w.bank.data(&w.mint);
